@@ -14,6 +14,7 @@ import KafkaVerif.Model.ReaderFront
 import KafkaVerif.Spec.Layout
 import KafkaVerif.Spec.ByteLayout
 import KafkaVerif.Spec.Crc
+import KafkaVerif.Model.ReaderRun
 
 namespace KV.OracleC02
 open KV KV.C02
@@ -165,6 +166,114 @@ def tokCfg : TokCfg :=
     dg2 := fun fts r => digestOf r.key r.value (fts + r.tsDelta) r.headers,
     dg1 := fun m => digestOf m.key m.value (if m.magic = 0 then -1 else m.ts) [] }
 
+/-! ### op `rtrace`: replay of the RL.* hook events of one fetcher through the loop LTS (Model/ReaderRun.lean) -/
+
+inductive TEv
+  | top (a : Nat) (o : Int) | cancel | init (cls : String) (start : Int) | offs (cls : String) (f l : Int)
+  | iter (e : Nat) (o : Int) | read (cls : String) (o c : Int) | msg (o : Int) | serr (cls : String)
+
+def parseTEv (s : String) : Option TEv :=
+  match s.splitOn ":" with
+  | ["Top", a, o] => do pure (.top (← a.toNat?) (← o.toInt?))
+  | ["Cancel", _] => some .cancel
+  | ["Cancel"] => some .cancel
+  | ["Init", c, st] => do pure (.init c (← st.toInt?))
+  | ["Offsets", c, f, l] => do pure (.offs c (← f.toInt?) (← l.toInt?))
+  | ["Iter", e, o] => do pure (.iter (← e.toNat?) (← o.toInt?))
+  | ["Read", c, o, co] => do pure (.read c (← o.toInt?) (← co.toInt?))
+  | ["Msg", o] => do pure (.msg (← o.toInt?))
+  | ["SendErr", c] => some (.serr c)
+  | _ => none
+
+structure Rep where
+  s : RR
+  pendOffs : Option (Int × Int) := none
+  d : List Rec := []
+  pendOOR : Bool := false
+  nerr : Nat := 0
+  bad : Option String := none
+  prop : Bool := false   -- the rejection is a failure of the property itself (wrong deliveries), not of the tie
+
+def sortedRecs : List Rec → Bool
+  | a :: b :: rest => a.1 < b.1 && sortedRecs (b :: rest)
+  | _ => true
+
+/-- the `Good` hypotheses of the loop theorems, evaluated on a recorded fetch round (`all`: every record the log ever
+held, `final`: what is left after log-start truncation) -/
+def goodDataB (all final : List Rec) (q : Int) (d : List Rec) (off' : Int) : Bool :=
+  sortedRecs d && d.all (fun r => all.contains r && q ≤ r.1 && r.1 < off') &&
+  final.all (fun r => !(q ≤ r.1 && r.1 < off') || d.contains r) && q ≤ off'
+
+def goodCutB (all final : List Rec) (q : Int) (d : List Rec) : Bool :=
+  sortedRecs d && d.all (fun r => all.contains r && q ≤ r.1) &&
+  final.all (fun r => !(q ≤ r.1 && d.any (fun x => r.1 ≤ x.1)) || d.contains r)
+
+def sleepIfDue (cfg : RCfg) (s : RR) : RR :=
+  if (s.phase == .top && s.attempt != 0 && !s.slept) || (s.phase == .reading && !s.slept) then rstep cfg s .sleepOk else s
+
+def fail (r : Rep) (why : String) : Rep := if r.bad.isSome then r else { r with bad := some why }
+def failProp (r : Rep) (why : String) : Rep := if r.bad.isSome then r else { r with bad := some why, prop := true }
+
+def kcode (cls : String) : Option Nat := if cls.startsWith "kafka" then (cls.drop 5).toString.toNat? else none
+
+def replayStep (cfg : RCfg) (all final : List Rec) (r : Rep) (e : TEv) : Rep :=
+  if r.bad.isSome then r else
+  match e with
+  | .top a o =>
+    if r.s.phase == .top && r.s.attempt == a && r.s.offset == o then r
+    else fail r s!"top: recorded attempt={a} offset={o}, model attempt={r.s.attempt} offset={r.s.offset}"
+  | .cancel =>
+    let s' := rstep cfg r.s .sleepCancel
+    if s'.phase == .stopped then { r with s := s' } else fail r "cancel: the model is not in a backoff sleep"
+  | .offs cls f l =>
+    if r.s.phase == .top then (if cls == "nil" then { r with pendOffs := some (f, l) } else r)
+    else if r.pendOOR then
+      let ev : REv := if cls == "nil" then .kerr 1 (some (f, l)) else .kerr 1 none
+      if cls == "nil" && !(final.all (fun x => f ≤ x.1)) then fail r s!"OffsetOutOfRange: first offset {f} is above a stored record"
+      else { r with s := rstep cfg r.s ev, pendOOR := false }
+    else fail r "offsets: unexpected"
+  | .init cls start =>
+    let s0 := sleepIfDue cfg r.s
+    if cls == "nil" then
+      match r.pendOffs with
+      | none => fail r "init ok without offsets"
+      | some (f, l) =>
+        let s' := rstep cfg s0 (.initOk f l)
+        if !(0 ≤ f && f ≤ l && final.all (fun x => f ≤ x.1)) then fail r s!"initialize: first={f} last={l} not a valid range below the stored records"
+        else if s'.phase == .reading && s'.offset == start && s'.connOff == start then { r with s := s', pendOffs := none }
+        else fail r s!"initialize: recorded start={start}, model phase/offset/conn={repr s'.phase}/{s'.offset}/{s'.connOff}"
+    else { r with s := rstep cfg s0 (.initFail (cls == "kafka1")), pendOffs := none }
+  | .iter e o =>
+    if r.s.phase == .reading && r.s.errcount == e && r.s.offset == o then r
+    else fail r s!"iter: recorded errcount={e} offset={o}, model phase={repr r.s.phase} errcount={r.s.errcount} offset={r.s.offset}"
+  | .msg o =>
+    match all.find? (fun x => x.1 == o) with
+    | some x => { r with d := r.d ++ [x] }
+    | none => failProp r s!"message {o} is not a stored record"
+  | .read cls o c =>
+    let s0 := sleepIfDue cfg r.s
+    let q := s0.connOff
+    let r0 := { r with d := [] }
+    if cls == "nil" || cls == "eof" || cls == "kafka7" then
+      if !(goodDataB all final q r.d c) then failProp r s!"fetch round at {q}: delivered {r.d.map (·.1)} conn offset after {c}: not the stored records of [{q},{c})"
+      else
+        let s' := rstep cfg s0 (.data r.d c (if cls == "kafka7" then .timedOut else .eof))
+        if s'.offset == o && s'.connOff == c then { r0 with s := s' }
+        else fail r s!"read: recorded offset={o} conn={c}, model offset={s'.offset} conn={s'.connOff}"
+    else if cls == "kafka1" then
+      if r.d.isEmpty then { r0 with s := s0, pendOOR := true } else fail r "OffsetOutOfRange after messages"
+    else if cls == "canceled" then { r0 with s := rstep cfg s0 .ctxCanceled }
+    else if cls == "unknowncodec" then { r0 with s := rstep cfg s0 .unknownCodec }
+    else match kcode cls with
+      | some code => { r0 with s := rstep cfg s0 (.kerr code none) }
+      | none =>
+        if r.d.isEmpty then { r0 with s := rstep cfg s0 .ioErr }
+        else if !(goodCutB all final q r.d) then failProp r s!"lost connection at {q}: delivered {r.d.map (·.1)}: not an initial segment of the stored records"
+        else
+          let s' := rstep cfg s0 (.cutAfter r.d)
+          if s'.offset == o then { r0 with s := s' } else fail r s!"read(cut): recorded offset={o}, model offset={s'.offset}"
+  | .serr _ => { r with nerr := r.nerr + 1 }
+
 def variantOf (op : String) : Variant := if op.startsWith "legacy-" then .legacy else .fixed
 
 def step (line : String) : String :=
@@ -195,7 +304,25 @@ def step (line : String) : String :=
         | _, _, _, _ => "bad-op"
       else "bad-op"
     | some op, none =>
-      if op == "tok" then
+      if op == "rtrace" then
+        match (field ws "L").bind parseLayout, (field ws "T").map (fun t => (t.splitOn ";").map parseTEv) with
+        | some items, some evs =>
+          if evs.any (·.isNone) then "bad-op" else
+          let evs := evs.filterMap id
+          let all := allRecords items
+          let final := match (field ws "truncn").bind (·.toNat?) with
+            | some tn => allRecords (items.drop tn)
+            | none => all
+          match evs with
+          | .top _ o :: _ =>
+            let r := evs.foldl (replayStep {} all final) { s := { offset := o } }
+            let r := if r.bad.isNone && r.nerr != r.s.errors.length then fail r s!"errors sent: recorded {r.nerr}, model {r.s.errors.length}" else r
+            match r.bad with
+            | none => answer "ok" true
+            | some why => answer s!"rejected: {why}" (!r.prop)
+          | _ => answer "rejected: trace does not start at the head of the loop" false
+        | _, _ => "bad-op"
+      else if op == "tok" then
         match (field ws "hex").bind ofHex, (field ws "L").bind parseLayout with
         | some bytes, some items =>
           let expected := truncate (allTokens items) bytes.length
@@ -219,7 +346,7 @@ def step (line : String) : String :=
             | none => none
           let withFirst := items.zip firsts
           let logFirst := (firsts.head?).getD hwm
-          let startOff : Int := if start == "first" then -1 else if start == "last" then -2 else (start.toInt?).getD 0
+          let startOff : Int := if start == "first" then -2 else if start == "last" then -1 else (start.toInt?).getD 0
           let all := allRecords items
           let final := match trunc with
             | some (_, tn) => allRecords (items.drop tn)
